@@ -229,6 +229,7 @@ def rule_finite_default(ctx):
     p = ctx.p
     fi = p.func(SP + ".num")
     x = fi.params()[1]
+    x_name = x
     dflt = fi.params()[2] if len(fi.params()) > 2 else None
     cfg = build_cfg(p, fi)
     prov = Provenance(cfg)
@@ -276,6 +277,17 @@ def rule_finite_default(ctx):
         if pth:
             problems.append((cfg.nodes[pth[-1]].ast, "the float conversion can be reached without trying the integer "
                                                      "conversion first: integer literals come back as floats"))
+    # every number constructor on the text sits in a try that catches everything (OverflowError for integers beyond 64 bits)
+    from sa.astutil import protecting_try
+    for n_ in cfg.nodes:
+        if n_.ast is None or n_.kind != "stmt":
+            continue
+        for c in walk_expr_shallow(n_.ast):
+            if isinstance(c, ast.Call) and _ctor_name(c) in (INT_CTORS | FLOAT_CTORS) and c.args and any(
+                    isinstance(x, ast.Name) and x.id == x_name for x in ast.walk(c.args[0])):
+                if protecting_try(c) is None:
+                    problems.append((c, "`%s` is not inside a try that catches every exception: an integer literal beyond 64 bits "
+                                        "raises OverflowError instead of falling back to float" % unparse(c)))
     if problems:
         seen = set()
         for node, msg in problems:
@@ -323,6 +335,15 @@ def rule_exempt(ctx):
             continue
         table = {}
         undecided = None
+        # conditions on anything but the mnemonic (e.g. the section kind) restrict the exemption
+        selfish = [t for t, lab in tests if any(isinstance(x, ast.Attribute) and isinstance(x.value, ast.Name) and x.value.id == "self"
+                                                and not (isinstance(getattr(x, "_parent", None), ast.Call) and x._parent.func is x)
+                                                for x in ast.walk(_inline_locals(t, fi)))]
+        if selfish:
+            ctx.bad("HDR.EXEMPT", site, fi, call, "the API/UWI exemption additionally depends on `%s`: outside that case (e.g. in "
+                    "~Version or a custom section) API/UWI values are converted and lose their leading zeros" % unparse(_inline_locals(selfish[0], fi)))
+            continue
+        tests = [(_inline_locals(t, fi), lab) for t, lab in tests]
         for probe in PROBE_NAMES:
             def env(name, probe=probe):
                 if name in local:
@@ -359,6 +380,26 @@ def rule_exempt(ctx):
             ctx.ok("HDR.EXEMPT", site, fi, call, "conversion is skipped exactly for names that case-fold to API/UWI "
                    "(truth table over %d probe names incl. mixed case and near misses)" % len(PROBE_NAMES))
     ctx.floor("HDR.EXEMPT", 1)
+
+
+def _inline_locals(t, fi):
+    """substitute single-definition locals of fi into test t (is_well_id = <expr>)"""
+    import copy
+    defs = {}
+    for s_ in walk_shallow(fi.node):
+        if isinstance(s_, ast.Assign) and len(s_.targets) == 1 and isinstance(s_.targets[0], ast.Name):
+            defs.setdefault(s_.targets[0].id, []).append(s_.value)
+    single = {k: v[0] for k, v in defs.items() if len(v) == 1 and not isinstance(v[0], (ast.List, ast.Tuple, ast.Dict, ast.Constant))}
+
+    class T(ast.NodeTransformer):
+        def visit_Name(self, node):
+            if node.id in single and isinstance(node.ctx, ast.Load):
+                return copy.deepcopy(single[node.id])
+            return node
+    out = t
+    for _ in range(3):
+        out = T().visit(copy.deepcopy(out))
+    return ast.fix_missing_locations(out)
 
 
 def rule_curve_raw(ctx):
